@@ -42,10 +42,10 @@ func SilenceStderr() {
 }
 
 type TWOpt struct {
-	Mode   string
-	CRL    *config.CRLConfig // nil = no crl_config
-	OCSP   *config.OCSPConfig
-	Net    *world.Net
+	Mode      string
+	CRL       *config.CRLConfig // nil = no crl_config
+	OCSP      *config.OCSPConfig
+	Net       *world.Net
 	NoWorkDir bool
 }
 
